@@ -41,6 +41,9 @@ pub type Rt<'r> = emit::runtime::Runtime<Box<dyn emit::emitter::ErasedEmitter + 
 impl<'a, 'b, 'c> Site<'a, 'b, 'c> {
     /// `call` is the `emit::emit!` call site; the event it produces is read inside the emitter.
     pub fn finish_emit(&mut self, call: impl FnOnce(&Rt<'_>)) -> Res {
+        if self.case.sinks {
+            return self.finish_emit_sinks(call);
+        }
         let result: RefCell<(Vec<crate::obs::Read>, Result<(), Fail>, usize)> = RefCell::new((Vec::new(), Ok(()), 0));
         {
             let key = self.exp.key;
@@ -675,5 +678,85 @@ pub fn check(case: &Case, cx: &mut Cx) -> Res {
             sites!(site, v, x, Some(x); Error)
         }
         Subj::Wk(wk) => check_wk(case, wk, cx),
+    }
+}
+
+/// What the sinks must show for the property: `None` = this (subject, attribute) has no sink clause,
+/// `Some(None)` = the property must be absent, `Some(Some(rv))` = it must denote `rv`.
+fn sink_want(case: &Case, exp: &Expect) -> Option<Option<c13::event::RV>> {
+    use c13::event::RV;
+    if exp.presence == Presence::Absent {
+        return Some(None);
+    }
+    if exp.alt.is_some() || case.mode.inspect() {
+        return None;
+    }
+    match case.mode {
+        Mode::Display | Mode::Debug => exp.display.clone().map(|d| Some(RV::Str(d))),
+        Mode::Default | Mode::Value | Mode::Sval | Mode::Serde => match &case.subj {
+            Subj::I64(v) => Some(Some(RV::Int(v.to_string()))),
+            Subj::U64(v) => Some(Some(RV::Int(v.to_string()))),
+            Subj::U128(v) => Some(Some(RV::Int(v.to_string()))),
+            Subj::F64(b) => Some(Some(RV::F64(*b))),
+            Subj::F32(b) => Some(Some(RV::F32(*b))),
+            Subj::Bool(b) => Some(Some(RV::Bool(*b))),
+            Subj::Str(s) | Subj::String(s) => Some(Some(RV::Str(s.clone()))),
+            _ => None,
+        },
+        _ => None,
+    }
+}
+
+impl<'a, 'b, 'c> Site<'a, 'b, 'c> {
+    /// The event the `emit::emit!` call site produces goes to the real sinks; the property is read
+    /// back from the rolling-file line and from the OTLP log record (JSON and protobuf encodings).
+    fn finish_emit_sinks(&mut self, call: impl FnOnce(&Rt<'_>)) -> Res {
+        let Some(want) = sink_want(self.case, &self.exp) else {
+            self.cx.class("dontcare:no-sink-clause-for-this-capture");
+            self.cx.dont_care();
+            return Ok(());
+        };
+        self.cx.class("path:sinks");
+        self.cx.class_if(matches!(&self.case.subj, Subj::U64(v) if *v > i64::MAX as u64) || matches!(&self.case.subj, Subj::U128(v) if *v > i64::MAX as u128), "sinks:integer-beyond-i64");
+        self.cx.class_if(matches!(&self.case.subj, Subj::F64(b) if !f64::from_bits(*b).is_finite()) || matches!(&self.case.subj, Subj::F32(b) if !f32::from_bits(*b).is_finite()), "sinks:non-finite-float");
+        self.cx.nontrivial(true);
+        let views = match c13::prop_through_sinks(self.exp.key, self.cx, |em| {
+            let rt: Rt = emit::runtime::Runtime::new().with_emitter(Box::new(em) as Box<dyn emit::emitter::ErasedEmitter + '_>);
+            call(&rt);
+        }) {
+            Ok(v) => v,
+            Err(f) => return self.cx.fail(f.sig, f.msg),
+        };
+        let what = format!("{:?} under {:?} ({:?})", self.case.subj, self.case.mode, self.case.opt);
+        match &want {
+            None => {
+                for (sink, present) in [("file", views.file.is_some()), ("otlp-json", views.otlp_json.is_some()), ("otlp-proto", views.otlp_proto.is_some())] {
+                    if present {
+                        self.cx.fail(format!("sinks/{sink}/optional-none-present"), format!("{what}: the sink wrote a property for an optional capture of None"))?;
+                    }
+                }
+            }
+            Some(rv) => {
+                match &views.file {
+                    None => self.cx.fail("sinks/file/property-missing", format!("{what}: the file line has no such property"))?,
+                    Some(jv) => {
+                        if let Err(m) = c13::match_json(rv, jv, self.exp.key) {
+                            self.cx.fail("sinks/file/value-mismatch", format!("{what}: {}; the line has {jv:?}", m.detail))?;
+                        }
+                    }
+                }
+                for (sink, av, is_json) in [("otlp-json", &views.otlp_json, true), ("otlp-proto", &views.otlp_proto, false)] {
+                    match av {
+                        None => self.cx.fail(format!("sinks/{sink}/property-missing"), format!("{what}: the log record has no such attribute"))?,
+                        Some(av) => {
+                            if let Err(m) = c13::match_av(rv, av, is_json, self.exp.key) {
+                                self.cx.fail(format!("sinks/{sink}/value-mismatch"), format!("{what}: {}; the record has {av:?}", m.detail))?;
+                            }
+                        }
+                    }
+                }
+            }
+        }
+        Ok(())
     }
 }
